@@ -3,6 +3,7 @@ package wprog
 import (
 	"fmt"
 	"math/rand"
+	"strings"
 )
 
 // G-families: accepted programs for which the code generator itself once
@@ -323,7 +324,9 @@ func famPure(g *genctx, v int) *scen {
 // the bounds the checker derived for the expression node, so a range
 // computation that is too narrow for some operand ranges is observed even when
 // nothing else goes wrong.
-var probeOps = []string{"+", "-", "*", "/", "%", "<<", ">>", "&", "|", "^", "~mod+", "~mod-", "~mod*", "~mod<<", "~sat+", "~sat-", "min", "max", "low_bits", "high_bits", "as-narrow", "unary-"}
+var probeOps = []string{"+", "-", "*", "/", "%", "<<", ">>", "&", "|", "^", "~mod+", "~mod-", "~mod*", "~mod<<", "~sat+", "~sat-", "min", "max", "low_bits", "high_bits", "as-narrow", "unary-",
+	// a named 64-bit constant with a small value as the left operand (C literals are 32 bits wide unless cast)
+	"const>>", "const~mod<<", "const~mod*", "const~mod+", "const~mod-", "const&", "const|", "const^", "const/", "const%", "const~sat-"}
 
 func init() {
 	allFamilies = append(allFamilies, family{"O-probe", len(probeOps), famProbe})
@@ -331,6 +334,9 @@ func init() {
 
 func famProbe(g *genctx, v int) *scen {
 	op := probeOps[v%len(probeOps)]
+	if strings.HasPrefix(op, "const") {
+		return famProbeConst(g, strings.TrimPrefix(op, "const"))
+	}
 	t := g.ityp()
 	r := g.r
 	pickRange := func(max uint64) (lo, hi uint64) {
@@ -543,6 +549,42 @@ func famDeepBreak(g *genctx, v int) *scen {
 			out = append(out, Call{Method: m, Args: []Arg{{Kind: "slice", Slice: hay}, iarg(100), {Kind: "bool", Int: en}}})
 		}
 		return out
+	}
+	return s
+}
+
+func famProbeConst(g *genctx, op string) *scen {
+	r := g.r
+	k := []uint64{1, 0x80, 0xFFFF, 0x8000_0000, 0xFFFF_FFFF, 0x1234_5678, 3}[r.Intn(7)]
+	cn := strings.ToUpper(g.n("pk"))
+	ylo, yhi := uint64(0), uint64(63)
+	yt := "base.u32"
+	switch op {
+	case ">>", "~mod<<":
+		ylo = uint64(r.Intn(40))
+		yhi = ylo + uint64(r.Intn(int(64-ylo)))
+	case "/", "%":
+		yt = "base.u64"
+		ylo, yhi = 1+uint64(r.Intn(5)), 0
+		yhi = ylo + uint64(r.Intn(12))
+	default:
+		yt = "base.u64"
+		ylo = uint64(r.Int63n(1 << 40))
+		yhi = ylo + uint64(r.Intn(12))
+	}
+	m := g.n("probek")
+	s := &scen{features: []string{"operator-range", "named-constant-operand", op}}
+	s.consts = []string{fmt.Sprintf("pri const %s : base.u64 = 0x%X", cn, k)}
+	s.methods = []string{fmt.Sprintf("pub func obj.%s(y: %s[%d ..= %d]) base.u64 {\n    return %s %s args.y\n}", m, yt, ylo, yhi, cn, op)}
+	var ys []uint64
+	for y := ylo; ; y++ {
+		ys = append(ys, y)
+		if y == yhi || len(ys) > 80 {
+			break
+		}
+	}
+	s.drive = func(r *rand.Rand) []Call {
+		return callsOver(r, m, [][]uint64{ys}, 100)
 	}
 	return s
 }
